@@ -180,7 +180,10 @@ void all(int part, int nparts) {
       const T in2[2] = {v[0], v[1]};
       c10::check_direction<T>("PlanarDirection(Direction)", pc, in2, 2);
       vf::stat("path_comparisons");
-      if (!vf::same_bits(back[0], pc[0]) || !vf::same_bits(back[1], pc[1]) || back[2] != 0)
+      // the embedding re-normalises: the planar components come back to rounding (2 ulp of 1, as for every other path; the
+      // statement does not ask for identical bits), the third component is exactly zero
+      const double e2 = 2 * (double)std::numeric_limits<T>::epsilon();
+      if (std::fabs((double)(back[0] - pc[0])) > e2 || std::fabs((double)(back[1] - pc[1])) > e2 || back[2] != 0)
         vf::viol(std::string("direction|Direction(PlanarDirection)-not-an-embedding|") + vf::TName<T>::value, "{\"input\":[" + vf::jstr(vf::hex(v[0])) + "," + vf::jstr(vf::hex(v[1])) + "]}");
     }
   }
